@@ -461,7 +461,10 @@ class StretchyTreeMatcher:
         # TODO: add functionality to add function references to func_table?
         meta_matched = self.metas_match(ins_node, std_node, check_meta)
         if match[_VAR] and meta_matched:  # variable
-            if type(std_node.astNode).__name__ == "Name" or id_val in ["attr", "arg"]:
+            # A parameter (or attribute) placeholder is also tried against the other children of the
+            # student's node, e.g. a default value: only a node that has that field can be its partner
+            if type(std_node.astNode).__name__ == "Name" or (id_val in ["attr", "arg"] and
+                                                             hasattr(std_node.astNode, id_val)):
                 if id_val in ["attr", "arg"]:
                     std_node.astNode._id = std_node.astNode.__getattribute__(id_val)
                 if std_node.field == "func" and ins_node.field != _NONE_FIELD:
